@@ -72,6 +72,9 @@ func edgeBase(r *Rng, zoneMin int) time.Time {
 func genWorld(r *Rng, focus string) (World, time.Time) {
 	w := World{ZoneMin: zones[r.Intn(len(zones))], Cpus: r.Pick2([]int{1, 1, 2, 4, 16, 64}), Env: map[string]string{}}
 	base := edgeBase(r, w.ZoneMin)
+	if r.Chance(1, 7) {
+		w.ZoneName, base = dstBase(r)
+	}
 	w.BaseUnix = base.Unix()
 	if !r.Chance(1, 6) {
 		w.Env["NO_COLOR"] = "1"
@@ -804,6 +807,15 @@ func genC17(r *Rng, seed int64, index int, tier string) *Scenario {
 		y, m, d = r.Range(2019, 2030), r.Range(1, 12), r.Range(1, 28)
 	}
 	base := time.Date(y, time.Month(m), d, minute/60, minute%60, r.Intn(60), 0, zone)
+	if r.Chance(1, 8) {
+		// a zone with daylight saving time, close to an offset change; the minute of the cell is kept where it exists
+		var probe time.Time
+		w.ZoneName, probe = dstBase(r)
+		zone = w.loc()
+		base = time.Date(probe.Year(), probe.Month(), probe.Day(), minute/60, minute%60, base.Second(), 0, zone)
+		minute = base.Hour()*60 + base.Minute()
+		y, m, d = base.Year(), int(base.Month()), base.Day()
+	}
 	w.BaseUnix = base.Unix()
 	viaConfig := rounding != 0 && r.Chance(1, 3)
 	if viaConfig {
@@ -906,7 +918,7 @@ func genC17(r *Rng, seed int64, index int, tier string) *Scenario {
 func c17CellKey(sc *Scenario) string {
 	hc := sc.Hist
 	op := hc.Ops[0]
-	zone := time.FixedZone("SIM", hc.World.ZoneMin*60)
+	zone := hc.World.loc()
 	t := time.Unix(hc.World.BaseUnix, 0).In(zone)
 	r := op.Args.Round
 	if r == 0 {
